@@ -210,7 +210,7 @@ def _user_langs(I) -> Dict[str, Lang]:
     return vals
 
 
-@rule("G9", "VAR-IDENTITY: identifiers are the first two characters (plus `$`), arrays get exactly one `arr_` prefix", ["C09"], floor=6)
+@rule("G9", "VAR-IDENTITY: identifiers are the first two characters (plus `$`), arrays get exactly one `arr_` prefix", ["C09", "C03", "C10"], floor=6, default_props=["C09"])
 def g9(ctx: Ctx):
     I = interp(ctx)
     py = pyfacts(ctx)
@@ -255,6 +255,7 @@ def g9(ctx: Ctx):
     n_strip = 0
     for rel in ("coco/b09/elements.py", "coco/b09/visitors.py"):
         m = py.mod(rel)
+        parents = {id(c): pp for pp in ast.walk(m.tree) for c in ast.iter_child_nodes(pp)}
         for n in ast.walk(m.tree):
             if isinstance(n, ast.Subscript) and isinstance(n.slice, ast.Slice) and isinstance(n.slice.lower, ast.Constant) and n.slice.upper is None and isinstance(n.slice.lower.value, int) and n.slice.lower.value in (3, 4, 5):
                 src = unparse(n.value)
@@ -262,6 +263,18 @@ def g9(ctx: Ctx):
                     n_strip += 1
                     ok = n.slice.lower.value == len("arr_")
                     ctx.ob(f"strip-prefix:{rel.split('/')[-1]}:{src}", ok, "" if ok else f"`{unparse(n)}` strips {n.slice.lower.value} characters, the array prefix `arr_` has 4", file=rel, line=n.lineno)
+                    # a stripped (source-level) name may only be used to rebuild the variable of an array reference;
+                    # everywhere else names are compared in their emitted form
+                    par = parents.get(id(n))
+                    okc = isinstance(par, ast.Call) and call_name(par) == "BasicVar" and par.args and par.args[0] is n
+                    ctx.ob(
+                        f"strip-prefix:{rel.split('/')[-1]}:{src}:use",
+                        bool(okc),
+                        "" if okc else f"`{unparse(n)}` (array name without its `arr_` prefix) is used outside a `BasicVar(...)` reconstruction: the bare name is that of the scalar of the same name, so array and scalar are confused in whatever set or comparison it enters",
+                        file=rel,
+                        line=n.lineno,
+                        props=["C09", "C03", "C10"],
+                    )
     ctx.need(n_strip >= 3, "strip-prefix", f"only {n_strip} prefix-stripping sites found")
     # per-name string sizes are keyed by emitted names: X$ -> X$, X$() -> arr_X$
     sv = py.cls("SetDimStringStorageVisitor").methods.get("__init__")
